@@ -35,56 +35,110 @@ def _resolve_bool_local(body, sym, facts, l, val, unwind, depth):
 
 
 def _facts_at_raw(body, sym, facts, bb, unwind=False, _depth=0):
-    """Symbolic facts that hold on every path reaching block bb.
+    """Symbolic facts carried by the switch edges that dominate block bb.
     Each fact: {'expr': sym-expr, 'val': True|False|variant-name|('not', [names])|int, 'text': str, 'switch': bb}"""
     out = []
     for s, vals, succ in edge_facts_at(body, bb, unwind):
-        t = body.term(s)
-        e = sym.op(t["on"])
-        ty = t.get("on_ty", "")
-        explicit = [v for v, _ in t["targets"]]
-        if ty == "bool":
-            if vals == {0}:
-                val = False
-            elif vals == {None} and explicit == [0]:
-                val = True
-            elif vals == {1}:
-                val = True
-            elif vals == {None} and explicit == [1]:
-                val = False
-            else:
-                continue
-            # normalise Not
-            while e[0] == "un" and e[1] == "Not":
-                e = e[2]
-                val = not val
-            out.append({"expr": e, "val": val, "text": "%s is %s" % (render(e), val), "switch": s})
-            # `matches!`-style idiom: a bool local assigned `true` on one arm of a switch and `false` on the others
-            if e[0] == "local" and _depth < 3:
-                for g2 in _resolve_bool_local(body, sym, facts, e[1], val, unwind, _depth + 1):
-                    out.append(g2)
-        elif e[0] == "discr":
-            base = e[1]
-            # find the enum type of the place whose discriminant was read
-            vmap = _variants_for_discr(body, facts, t, s)
-            if vmap is None:
-                names = None
-            else:
-                if None in vals:
-                    names = [n for d, n in vmap.items() if d not in explicit]
-                    names += [vmap[v] for v in vals if v is not None and v in vmap]
-                else:
-                    names = [vmap.get(v, str(v)) for v in vals]
-            if names is not None and len(names) == 1:
-                out.append({"expr": base, "val": names[0], "text": "%s is %s" % (render(base), names[0]), "switch": s})
-            elif names:
-                out.append({"expr": base, "val": ("in", sorted(names)), "text": "%s in %s" % (render(base), sorted(names)), "switch": s})
+        out.extend(_edge_fact_dicts(body, sym, facts, s, vals, unwind, _depth))
+    return out
+
+
+def _edge_fact_dicts(body, sym, facts, s, vals, unwind=False, _depth=0):
+    """facts that hold when switch block s is left through an edge carrying one of `vals` (None = otherwise)"""
+    out = []
+    t = body.term(s)
+    e = sym.op(t["on"])
+    ty = t.get("on_ty", "")
+    explicit = [v for v, _ in t["targets"]]
+    if ty == "bool":
+        if vals == {0}:
+            val = False
+        elif vals == {None} and explicit == [0]:
+            val = True
+        elif vals == {1}:
+            val = True
+        elif vals == {None} and explicit == [1]:
+            val = False
+        else:
+            return out
+        # normalise Not
+        while e[0] == "un" and e[1] == "Not":
+            e = e[2]
+            val = not val
+        out.append({"expr": e, "val": val, "text": "%s is %s" % (render(e), val), "switch": s})
+        # `matches!`-style idiom: a bool local assigned `true` on one arm of a switch and `false` on the others
+        if e[0] == "local" and _depth < 3:
+            for g2 in _resolve_bool_local(body, sym, facts, e[1], val, unwind, _depth + 1):
+                out.append(g2)
+    elif e[0] == "discr":
+        base = e[1]
+        # find the enum type of the place whose discriminant was read
+        vmap = _variants_for_discr(body, facts, t, s)
+        if vmap is None:
+            names = None
         else:
             if None in vals:
-                out.append({"expr": e, "val": ("notin", sorted(explicit)), "text": "%s not in %s" % (render(e), explicit), "switch": s})
+                names = [n for d, n in vmap.items() if d not in explicit]
+                names += [vmap[v] for v in vals if v is not None and v in vmap]
             else:
-                out.append({"expr": e, "val": ("in", sorted(vals)), "text": "%s in %s" % (render(e), sorted(vals)), "switch": s})
+                names = [vmap.get(v, str(v)) for v in vals]
+        if names is not None and len(names) == 1:
+            out.append({"expr": base, "val": names[0], "text": "%s is %s" % (render(base), names[0]), "switch": s})
+        elif names:
+            out.append({"expr": base, "val": ("in", sorted(names)), "text": "%s in %s" % (render(base), sorted(names)), "switch": s})
+    else:
+        if None in vals:
+            out.append({"expr": e, "val": ("notin", sorted(explicit)), "text": "%s not in %s" % (render(e), explicit), "switch": s})
+        else:
+            out.append({"expr": e, "val": ("in", sorted(vals)), "text": "%s in %s" % (render(e), sorted(vals)), "switch": s})
     return out
+
+
+def _merged_facts(body, sym, facts):
+    """Forward must-analysis: facts available at the entry of each block = intersection over its predecessors of
+    (facts at the predecessor + the fact of the connecting switch edge), identified by their text.  This keeps a
+    fact at a join when every incoming path established it (through different but equivalent tests - e.g. the
+    copies made by jump threading, or `if a {..} else if b {..}` arms that meet again)."""
+    cache = body.__dict__.setdefault("_facts_cache", {})
+    if "merged" in cache:
+        return cache["merged"]
+    cache["merged"] = {}
+    live = body.live_blocks()
+    IN = {0: {}}
+    work = [0]
+    guard = 0
+    while work and guard < 20000:
+        guard += 1
+        b = work.pop()
+        cur = IN[b]
+        t = body.term(b)
+        by_target = None
+        if t["k"] == "switch":
+            by_target = {}
+            for v, x in t["targets"]:
+                by_target.setdefault(x, set()).add(v)
+            by_target.setdefault(t["otherwise"], set()).add(None)
+        for succ in body.succs(b):
+            if succ not in live:
+                continue
+            out = cur
+            if by_target is not None and succ in by_target:
+                extra = _edge_fact_dicts(body, sym, facts, b, by_target[succ], False, 1)
+                if extra:
+                    out = dict(cur)
+                    for f in extra:
+                        out.setdefault(f["text"], f)
+            if succ not in IN:
+                IN[succ] = dict(out)
+                work.append(succ)
+            else:
+                old = IN[succ]
+                new = {k: v for k, v in old.items() if k in out}
+                if len(new) != len(old):
+                    IN[succ] = new
+                    work.append(succ)
+    cache["merged"] = IN
+    return IN
 
 
 _BRANCH_WANTS = {"Continue": ("Ok", "Some"), "Break": ("Err", "None")}
@@ -170,6 +224,9 @@ def facts_at(body, sym, facts, bb, unwind=False, _depth=0):
     if key in cache:
         return cache[key]
     cache[key] = base      # re-entrancy guard
+    have0 = {f["text"] for f in base}
+    merged = _merged_facts(body, sym, facts).get(bb) or {}
+    base = base + [dict(f, merged=True) for k, f in merged.items() if k not in have0]
     alts = _alternatives(body, sym, facts, bb, base, 8)
     out = base
     if alts and alts != [base]:
